@@ -25,10 +25,10 @@ Step ==
          /\ \E p \in Pts : /\ (Len(seq) > 0 => Octi(seq[Len(seq)], p))
                            /\ seq' = Append(seq, p) /\ done' = FALSE
       \/ /\ Mode = "line" /\ Len(seq) >= 2 /\ seq' = seq /\ done' = TRUE
-      \/ /\ Mode \in {"ring", "holed"} /\ Len(seq) < K
+      \/ /\ Mode \in {"ring", "holed", "holed2"} /\ Len(seq) < K
          /\ \E p \in Pts : /\ (Len(seq) > 0 => Lt(seq[1], p) /\ Octi(seq[Len(seq)], p) /\ p # seq[Len(seq)])
                            /\ seq' = Append(seq, p) /\ done' = FALSE
-      \/ /\ Mode \in {"ring", "holed"} /\ Len(seq) >= 3 /\ SimpleOpen(seq) /\ Lt(seq[2], seq[Len(seq)])
+      \/ /\ Mode \in {"ring", "holed", "holed2"} /\ Len(seq) >= 3 /\ SimpleOpen(seq) /\ Lt(seq[2], seq[Len(seq)])
          /\ seq' = Append(seq, seq[1]) /\ done' = TRUE
 Spec == Init /\ [][Step]_vars
 
@@ -36,12 +36,21 @@ Square == <<<<0,0>>, <<N,0>>, <<N,N>>, <<0,N>>, <<0,0>>>>
 Tri == <<<<0,0>>, <<N,0>>, <<0,N>>, <<0,0>>>>
 \* a hole must lie in the closed exterior region (touching its boundary is allowed)
 HoleIn(h, ext) == LET m == Mask(<<"poly", h, <<>>>>) me == Mask(<<"poly", ext, <<>>>>) IN m \subseteq me
+\* a second, fixed hole for the two-hole stratum; the enumerated hole must not overlap it (common boundary points are fine)
+Hole2 == <<<<2,2>>, <<3,2>>, <<3,3>>, <<2,3>>, <<2,2>>>>
+Disjoint2(h) == LET m == Mask(<<"poly", h, <<>>>>) m2 == Mask(<<"poly", Hole2, <<>>>>)
+                    \* interiors disjoint: no witness strictly inside both
+                    in1 == {k \in m : InRingOpen(Wit(k), Scale4Pts(h))}
+                    in2 == {k \in m2 : InRingOpen(Wit(k), Scale4Pts(Hole2))}
+                IN in1 \cap in2 = {} /\ h # Hole2
 Shapes ==
    IF ~done THEN <<>>
    ELSE CASE Mode = "pt" -> << <<"pt", seq[1]>> >>
           [] Mode = "rect" -> << <<"rect", seq[1], seq[2]>> >>
           [] Mode = "line" -> << <<"line", seq>> >>
           [] Mode = "ring" -> << <<"poly", seq, <<>>>> >>
+          [] Mode = "holed2" -> (IF HoleIn(seq, Square) /\ Disjoint2(seq)
+                                 THEN << <<"poly", Square, <<seq, Hole2>>>>, <<"poly", Square, <<Hole2, seq>>>> >> ELSE <<>>)
           [] Mode = "holed" -> (IF HoleIn(seq, Square) THEN << <<"poly", Square, <<seq>>>> >> ELSE <<>>)
                                \o (IF HoleIn(seq, Tri) THEN << <<"poly", Tri, <<seq>>>> >> ELSE <<>>)
 Emit == \A i \in 1..Len(Shapes) : PrintT(ToString(<<"SHAPE", Shapes[i], MaskBits(Shapes[i])>>))
